@@ -18,7 +18,27 @@ from propcfg import PROPS  # noqa: E402
 
 LEAN = os.path.join(VERIF, "lean")
 HARNESS = os.path.join(VERIF, "harness")
+# VERIF_REPO=<dir>: run the check against another checkout (used only to try seeded changes without
+# touching /repo); the registered commands never set it.
+ALT_REPO = os.environ.get("VERIF_REPO")
+if ALT_REPO and os.path.abspath(ALT_REPO) != "/repo":
+    import shutil
+    alt = os.path.join(VERIF, "work", "harness-" + hashlib.sha1(os.path.abspath(ALT_REPO).encode()).hexdigest()[:8])
+    os.makedirs(alt, exist_ok=True)
+    for item in ("src", ".cargo", "Cargo.lock"):
+        srcp = os.path.join(HARNESS, item)
+        dstp = os.path.join(alt, item)
+        if os.path.isdir(srcp):
+            shutil.rmtree(dstp, ignore_errors=True)
+            shutil.copytree(srcp, dstp)
+        else:
+            shutil.copy(srcp, dstp)
+    toml = open(os.path.join(HARNESS, "Cargo.toml")).read().replace('path = "/repo"', 'path = "%s"' % os.path.abspath(ALT_REPO))
+    open(os.path.join(alt, "Cargo.toml"), "w").write(toml)
+    HARNESS = alt
+    os.environ["HIFI_REPO"] = os.path.abspath(ALT_REPO)
 HV = os.path.join(HARNESS, "target", "debug", "hv")
+os.environ["HV_BIN"] = HV
 DRIVER = os.path.join(LEAN, ".lake", "build", "bin", "driver")
 WORK = os.path.join(VERIF, "work")
 ALLOWED_AXIOMS = {"propext", "Classical.choice", "Quot.sound"}
